@@ -62,6 +62,7 @@ def strategy(tier):
         "nmodes": st.integers(1, 3), "gen": st.booleans(), "sigma": st.booleans(),
         "dir": st.integers(0, 5),
         "dense": st.sampled_from(["linsolve_sym", "linsolve_gen", "inverse", "eig_sym", "linsolve_sym_mixed"]),
+        "fixK": st.booleans(),       # T2 (generalised): the stiffness matrix is a constant signal, only the mass depends on x
         "nonsym": st.booleans(),     # T4/T5: non-symmetric system matrix (AssembleGeneral with a non-symmetric element matrix)
         "agg": st.sampled_from(["pnorm", "ks", "soft"]), "agg_opt": st.sampled_from(["plain", "active", "undamped"]),
         "final_k": st.integers(0, 3), "final_seeds": st.lists(st.integers(0, 3), min_size=1, max_size=3),
@@ -205,6 +206,14 @@ def build(case):
         x, K, M, lam, Q, g = S("x", designs[0].copy()), S("K"), S("M"), S("lam"), S("Q"), S("g")
         bc = np.asarray(dom.nodes[0]).flatten()
         mods = [pym.AssemblePoisson(x, K, dom, bc=bc, bcdiagval=50.0)]
+        if o["gen"] and o.get("fixK"):
+            # K is assembled once (for a fixed reference design) and handed over as a constant signal: the SAME matrix
+            # object enters EigenSolve in every response, only M changes with the design
+            tmp = pym.AssemblePoisson(S("xref", np.full(dom.nel, 0.7)), S("Ktmp"), dom, bc=bc, bcdiagval=50.0)
+            tmp.response()
+            K = S("K", tmp.sig_out[0].state)
+            mods = []
+            labels.append("constant_K")
         ins = [K]
         if o["gen"]:
             mods.append(pym.AssembleMass(x, M, dom, bc=bc, bcdiagval=1.0))
